@@ -263,6 +263,14 @@ func (tr *Transaction) discard() {
 		tr.db.setSeq(tr.seq)
 	}
 	// Discard transaction.
+	if tr.db.s.manifestUncertain() {
+		// The commit of this transaction may be what failed: its record can
+		// be in the manifest although the commit was reported as failed, and
+		// the next Open would then miss the tables. Leave them; they are
+		// removed as obsolete files once the manifest is known again.
+		tr.db.logf("transaction@discard keeping F·%d, manifest state is uncertain", len(tr.tables))
+		return
+	}
 	for _, t := range tr.tables {
 		tr.db.logf("transaction@discard @%d", t.fd.Num)
 		// Iterator may still use the table, so we use tOps.remove here.
